@@ -127,6 +127,15 @@ class Ctx:
         subprocess.run(["rsync", "-a", "--exclude", ".git", REPO + "/", dst + "/"], check=True)
         # overlay harness
         shutil.copytree(os.path.join(HARNESS, "verifharness"), os.path.join(dst, "verifharness"))
+        # development aid: VERIF_HARNESS_ONLY="core_,lexer" keeps only the harness files whose
+        # name starts with one of the prefixes (plus main.go / containers.go), so that a
+        # half-written file of another layer cannot break this layer's build
+        only = os.environ.get("VERIF_HARNESS_ONLY")
+        if only:
+            prefixes = tuple(x for x in only.split(",") if x) + ("main.go", "containers.go")
+            for f in os.listdir(os.path.join(dst, "verifharness")):
+                if not f.startswith(prefixes):
+                    os.remove(os.path.join(dst, "verifharness", f))
         os.makedirs(os.path.join(dst, "cmd"), exist_ok=True)
         shutil.copytree(os.path.join(HARNESS, "cmd", "verifh"), os.path.join(dst, "cmd", "verifh"))
         self.repo_copy = dst
